@@ -11,6 +11,7 @@ import (
 	"github.com/bits-and-blooms/bloom/v3"
 	bs "github.com/danthegoodman1/bloomsearch"
 
+	"verif/hstore"
 	"verif/refmodel"
 )
 
@@ -370,16 +371,129 @@ func fileCases(tier string, o fileOpts) []Case {
 			return res
 		}})
 	}
+	for _, kind := range []string{"merge", "flush"} {
+		for _, comp := range []bs.CompressionType{bs.CompressionNone, bs.CompressionSnappy, bs.CompressionZstd} {
+			if tier == "quick" && comp == bs.CompressionZstd {
+				continue
+			}
+			kind, comp := kind, comp
+			cs = append(cs, Case{ID: fmt.Sprintf("after-failed-%s/%s", kind, comp), Run: func() CaseResult { return afterFailureCase(kind, comp, o) }})
+		}
+	}
 	return cs
 }
 
 func init() {
 	modes["C17"] = ModeSpec{
 		Cases: func(t string) []Case { return fileCases(t, fileOpts{c17: true}) },
-		Rule:  "every file of every engine-written layout (flushes, merges incl. by differently configured engines, all compressions, partitions, minmax keys); each file is parsed by an independent reader of FILE_FORMAT.md and every block's counts, sizes, CRC, compression and measured entry counts are recomputed; public helpers must agree byte for byte",
+		Rule:  "every file of every engine-written layout (flushes, merges incl. by differently configured engines, all compressions, partitions, minmax keys); each file is parsed by an independent reader of FILE_FORMAT.md and every block's counts, sizes, CRC, compression and measured entry counts are recomputed; public helpers must agree byte for byte; the same for the files an engine writes after one of its merges / flushes was failed at each store call position in turn",
 	}
 	modes["C18"] = ModeSpec{
 		Cases: func(t string) []Case { return fileCases(t, fileOpts{c18: true}) },
 		Rule:  "same files as C17; every field/token/field:token entry the reference derives from a block's rows must test positive in the block's and the file's filters; minmax key sets and ranges are recomputed from the original Go values (math/big), partition ids from the partition function",
 	}
+}
+
+// ---- files written after a failed operation ---------------------------------------------
+//
+// "Every file produced by flush or merge" includes the ones produced after an earlier flush or
+// merge on the same engine failed half way: for every store call position of a merge (and of
+// a flush) the operation is failed there once, the same engine then repeats it fault-free, and
+// every referenced file must describe itself.
+
+func afterFailureCase(kind string, comp bs.CompressionType, o fileOpts) CaseResult {
+	var res CaseResult
+	run := func(target int) (calls int, ok bool) {
+		cfg := quietConfig()
+		cfg.RowDataCompression = comp
+		cfg.BloomFalsePositiveRate = 0.01
+		cfg.MinMaxIndexes = []string{"n"}
+		cfg.PartitionFunc = func(r map[string]any) string { s, _ := r["p"].(string); return s }
+		cfg.MaxFilesToMergePerOperation = 6
+		w, err := newWorld(cfg, nil)
+		if err != nil {
+			res.Findings = append(res.Findings, fnd("setup", "%v", err))
+			return 0, false
+		}
+		defer w.Close()
+		fc := &faultCounter{targets: map[int]bool{}}
+		if target > 0 {
+			fc.targets[target] = true
+		}
+		skip := map[string]bool{"HandleClose": true, "Iter": true, "IterYield": true}
+		w.Data.Hook = fc.hook("data", skip)
+		w.Meta.(*hstore.MemMeta).Hook = fc.hook("meta", skip)
+		batches := [][]map[string]any{
+			{{"id": "a1", "p": "a", "n": 1, "t": "x y"}, {"id": "b1", "p": "b", "n": 5}, {"id": "c1", "p": "c", "t": "z"}},
+			{{"id": "a2", "p": "a", "n": 3, "t": "y"}, {"id": "b2", "p": "b", "n": -2, "t": "x"}, {"id": "c2", "p": "c", "t": "w w"}},
+			{{"id": "a3", "p": "a", "n": 9}},
+		}
+		ctx := context.Background()
+		label := fmt.Sprintf("%s/%s fault #%d", kind, comp, target)
+		if kind == "merge" {
+			for _, b := range batches {
+				if err := w.Put(b); err != nil {
+					res.Findings = append(res.Findings, fnd("setup-ingest", "%s: %v", label, err))
+					return 0, false
+				}
+			}
+			fc.arm(true)
+			w.Eng.Merge(ctx) // may fail: the injected fault
+			fc.arm(false)
+			calls = fc.n
+			if _, err := w.Eng.Merge(ctx); err != nil {
+				res.Findings = append(res.Findings, fnd("c17-merge-after-failure", "C17 %s: the fault-free Merge after the failed one returned %v", label, err))
+			}
+		} else {
+			// flush: the first batch's flush is failed, then the same rows and more are flushed fault-free
+			fc.arm(true)
+			done, err := w.IngestAsync(batches[0])
+			if err == nil {
+				w.Eng.Flush(ctx)
+				<-done // answered with the injected error, or nil when the fault hit a call that does not fail the flush
+			}
+			fc.arm(false)
+			calls = fc.n
+			// which rows are stored now is C06's subject; rebuild the reference from the files
+			for _, b := range batches[1:] {
+				if err := w.Put(b); err != nil {
+					res.Findings = append(res.Findings, fnd("c17-flush-after-failure", "C17 %s: a fault-free flush after the failed one returned %v", label, err))
+				}
+			}
+			if bl, err := w.Blocks(); err == nil {
+				have := map[string]bool{}
+				for _, b := range bl {
+					for _, c := range b.Canon {
+						have[c] = true
+					}
+				}
+				for _, r := range batches[0] {
+					if sr, err := mkStored(r, w.Part); err == nil && have[sr.Info.Canon] {
+						w.Rows = append(w.Rows, sr)
+					}
+				}
+			}
+		}
+		res.Evals++
+		if len(fc.fired) > 0 {
+			res.Nontrivial++
+		}
+		var fs []Finding
+		n := 0
+		checkWorldFiles(w, o, cfg.MinMaxIndexes, &fs, &n)
+		for _, f := range fs {
+			f.Msg = fmt.Sprintf("after %s %v: %s", label, fc.fired, f.Msg)
+			res.Findings = append(res.Findings, f)
+		}
+		return calls, true
+	}
+	n, ok := run(0)
+	if !ok {
+		return res
+	}
+	for k := 1; k <= n && len(res.Findings) < 8; k++ {
+		run(k)
+	}
+	res.Sample = map[string]any{"operation": kind, "compression": string(comp), "call_positions": n}
+	return res
 }
